@@ -131,7 +131,7 @@ theorem affinity_set_accept_iff {e : Emu} (h : WF e) {ti : Nat} {t : Thread} (ht
         WF e1.flushAll ∧ absOf e1.flushAll.threads = (absOf e.threads).set ti (t.state, some ci)) := by
   have hver := preAffinitySet_verdict h ht hlen hci
   simp only [hact, if_true] at hver
-  exact ⟨hver.1, fun e1 h1 => ⟨(hver.2 e1 h1).wf, (hver.2 e1 h1).abs⟩⟩
+  exact ⟨hver.1, fun e1 h1 => ⟨(hver.2.1 e1 h1).wf, (hver.2.1 e1 h1).abs⟩⟩
 
 theorem affinity_set_oversub_rejected {e : Emu} (h : WF e) {ti : Nat} {t : Thread}
     (ht : e.threads[ti]? = some t) {payload : List Nat} {ci : Nat} (hlen : payload.length = 4)
@@ -168,7 +168,7 @@ theorem affinity_remote_accept_iff {e : Emu} (h : WF e) {ti : Nat} {t : Thread} 
   · simp only [hd, if_false] at hver
     have hd' := not_or.mp hd
     refine ⟨⟨fun hacc => ⟨hd'.1, hd'.2, hver.1.mp hacc⟩, fun hh => hver.1.mpr hh.2.2⟩, ?_⟩
-    exact fun e1 h1 => ⟨(hver.2 e1 h1).wf, (hver.2 e1 h1).abs⟩
+    exact fun e1 h1 => ⟨(hver.2.1 e1 h1).wf, (hver.2.1 e1 h1).abs⟩
 
 theorem affinity_remote_oversub_rejected {e : Emu} (h : WF e) {ti : Nat} {t : Thread}
     (ht : e.threads[ti]? = some t) {payload : List Nat} {ci : Nat} {r : Thread} (hlen : payload.length = 8)
